@@ -53,3 +53,16 @@ impl DSU {
         self.sz[v]
     }
 }
+
+#[cfg(feature = "verif")]
+impl DSU {
+    /// verification hook: read-only view of the parent forest
+    pub fn verif_parents(&self) -> &[usize] {
+        &self.p
+    }
+
+    /// verification hook: read-only view of the size array (meaningful at roots)
+    pub fn verif_sizes(&self) -> &[usize] {
+        &self.sz
+    }
+}
